@@ -1181,9 +1181,13 @@ impl ObjectFile {
         let block_map = block_map.into_iter()
             .map(|(start, ObjBlock { words, .. })| (start, words))
             .collect();
+        // Without debug symbols the symbol table is normally dropped, but a file that declares
+        // external labels needs it: it holds the linker information (which words await which
+        // label). Dropping it would make the placeholder words load as if they were resolved.
+        let has_externals = sym.label_map.values().any(|data| data.external);
         Ok(Self {
             block_map,
-            sym: debug.then_some(sym),
+            sym: (debug || has_externals).then_some(sym),
         })
     }
 
